@@ -203,7 +203,7 @@ def generate(name, prop, c, simulate=None, timeout=1500):
     return hists, stats
 
 
-def run(prop, tier, families, own_invariants, reread=False, assumptions=None, quick_cap=1500, thorough_cap=12000,
+def run(prop, tier, families, own_invariants, reread=False, assumptions=None, quick_cap=1500, thorough_cap=8000,
         tail_steps=None, knob_list=None, replay=None):
     """families: list of dicts(name, ids, vals, maxv, maxops(quick), maxops_thorough, stable(list), opkinds)"""
     if replay:
@@ -219,7 +219,11 @@ def run(prop, tier, families, own_invariants, reread=False, assumptions=None, qu
     counts_total = {}
     exhaustive = True
     for fam in families:
-        maxops = fam["maxops"] if tier == "quick" else fam.get("maxops_thorough", fam["maxops"] + 1)
+        # quick: exhaustive at depth maxops.  thorough: exhaustive one step deeper where that stays below ~1M states
+        # (families of depth 2); otherwise exhaustive at the quick depth PLUS seeded TLC simulation one step deeper,
+        # for the invariants and for the histories that are replayed.
+        deep_sim = tier != "quick" and fam["maxops"] >= 3
+        maxops = fam["maxops"] if (tier == "quick" or deep_sim) else fam.get("maxops_thorough", fam["maxops"] + 1)
         hb = []
         for stable in fam["stable"]:
             c = cfg(fam["ids"], fam["vals"], fam["maxv"], maxops, stable, fam["opkinds"], maxbatch=fam.get("maxbatch", 1))
@@ -237,6 +241,27 @@ def run(prop, tier, families, own_invariants, reread=False, assumptions=None, qu
             if not hists:
                 raise vlib.ToolError("TLC generated no scenario")
             cap = (quick_cap if tier == "quick" else thorough_cap) // max(1, len(fam["stable"]) * len(families))
+            if deep_sim:
+                deep = fam.get("maxops_thorough", fam["maxops"] + 1)
+                cd = cfg(fam["ids"], fam["vals"], fam["maxv"] + 1, deep, stable, fam["opkinds"], maxbatch=fam.get("maxbatch", 1))
+                rs = vlib.tlc_mc(f"{prop}-{fam['name']}-{int(stable)}-sim", "LanceTable", cd, workers=4, timeout=3000,
+                                 simulate="num=60000")
+                if rs["violated"]:
+                    out.report({"spec": "LanceTable", "invariant": rs["violated"]},
+                               f"design model violates {rs['violated']} in simulation at depth {deep} ({rs['out']})", {"cfg": cd})
+                mc_info.append({"family": fam["name"], "stable": stable, "mode": "simulation num=60000", "maxops": deep,
+                                "generated": rs.get("generated"), "wall_s": rs["wall_s"]})
+                dh, _ = generate(f"{fam['name']}-{int(stable)}-sim", prop, cd, simulate=f"num={cap * 2}", timeout=3000)
+                seen = {json.dumps(h, sort_keys=True) for h in hists}
+                deeper = []
+                for h in dh:
+                    k = json.dumps(h, sort_keys=True)
+                    if k not in seen:
+                        seen.add(k)
+                        deeper.append(h)
+                # half of the budget for the deeper (sampled) histories
+                hists = sample(hists, cap // 2, rnd) + sample(deeper, cap - cap // 2, rnd)
+                exhaustive = False
             if len(hists) > cap:
                 exhaustive = False
             hb.append((stable, sample(hists, cap, rnd)))
